@@ -318,21 +318,33 @@ def optkw(e):
     return {k: (mkq(v) if isinstance(v, list) and len(v) == 3 and isinstance(v[0], str) else v) for k, v in e.get('opt', {}).items()}
 
 
-def make_control(pt, els, rules):
+def sensor(sens, cls, el):
+    """one sensor object per (kind, element) in a scenario, shared by rules and stop conditions, as in a user script"""
+    if sens is None:
+        return cls(el)
+    key = (cls.__name__, id(el))
+    if key not in sens:
+        sens[key] = cls(el)
+    return sens[key]
+
+
+def make_control(pt, els, rules, sens=None):
     if rules is None:
         return None
+    AbsoluteRotaryEncoder_ = lambda el: sensor(sens, AbsoluteRotaryEncoder, el)  # noqa
+    Tachometer_ = lambda el: sensor(sens, Tachometer, el)  # noqa
     c = PWMControl(powertrain=pt)
     for r in rules:
         if r['r'] == 'const':
             c.add_rule(ConstantPWM(timer=Timer(start_time=mkq(r['start']), duration=mkq(r['dur'])), powertrain=pt, target_pwm_value=r['v']))
         elif r['r'] == 'reach':
-            c.add_rule(ReachAngularPosition(encoder=AbsoluteRotaryEncoder(els[r['enc']]), powertrain=pt,
+            c.add_rule(ReachAngularPosition(encoder=AbsoluteRotaryEncoder_(els[r['enc']]), powertrain=pt,
                                             target_angular_position=mkq(r['target']), braking_angle=mkq(r['brake'])))
         elif r['r'] == 'prop':
-            c.add_rule(StartProportionalToAngularPosition(encoder=AbsoluteRotaryEncoder(els[r['enc']]), powertrain=pt,
+            c.add_rule(StartProportionalToAngularPosition(encoder=AbsoluteRotaryEncoder_(els[r['enc']]), powertrain=pt,
                                                           target_angular_position=mkq(r['target']), pwm_min_multiplier=r['mult'], pwm_min=r['pmin']))
         elif r['r'] == 'lim':
-            c.add_rule(StartLimitCurrent(encoder=AbsoluteRotaryEncoder(els[r['enc']]), tachometer=Tachometer(els[r['tach']]), motor=els[0],
+            c.add_rule(StartLimitCurrent(encoder=AbsoluteRotaryEncoder_(els[r['enc']]), tachometer=Tachometer_(els[r['tach']]), motor=els[0],
                                          target_angular_position=mkq(r['target']), limit_electric_current=mkq(r['ilim'])))
     return c
 
@@ -340,16 +352,16 @@ def make_control(pt, els, rules):
 OPS = {'GT': 'greater_than', 'GE': 'greater_than_or_equal_to', 'EQ': 'equal_to', 'LT': 'less_than', 'LE': 'less_than_or_equal_to'}
 
 
-def make_stop(els, s):
+def make_stop(els, s, sens=None):
     if s is None:
         return None
     if s['sensor'][0] == 'enc':
-        sensor = AbsoluteRotaryEncoder(els[s['sensor'][1]])
+        sn = sensor(sens, AbsoluteRotaryEncoder, els[s['sensor'][1]])
     elif s['sensor'][0] == 'tach':
-        sensor = Tachometer(els[s['sensor'][1]])
+        sn = sensor(sens, Tachometer, els[s['sensor'][1]])
     else:
-        sensor = Amperometer(els[0])
-    return StopCondition(sensor=sensor, threshold=mkq(s['thr']), operator=getattr(StopCondition, OPS[s['op']]))
+        sn = sensor(sens, Amperometer, els[0])
+    return StopCondition(sensor=sn, threshold=mkq(s['thr']), operator=getattr(StopCondition, OPS[s['op']]))
 
 
 def static_of(pt, els):
@@ -442,20 +454,21 @@ def run_impl(sc, timeout=20, keep_objects=False):
                         res['oracle'].append(['LSquare', x, x ** 2])
         ctl_cache = {}
         stop_cache = {}
+        sens = {}
         try:
             for op in sc['ops']:
                 if op[0] == 'run':
                     import json as _json
                     key = _json.dumps(op[3], sort_keys=True, default=str)
                     if key not in ctl_cache:                 # the same rule set is the same PWMControl object across runs, as in a user script
-                        ctl_cache[key] = make_control(pt, els, op[3])
+                        ctl_cache[key] = make_control(pt, els, op[3], sens)
                     ctl = ctl_cache[key]
                     if op[3]:
                         lim_rules += [r for r in op[3] if r['r'] == 'lim']
                     try:
                         skey = _json.dumps(op[4], sort_keys=True, default=str)
                         if skey not in stop_cache:           # the same stop condition is the same object across runs, as in a user script
-                            stop_cache[skey] = make_stop(els, op[4])
+                            stop_cache[skey] = make_stop(els, op[4], sens)
                         solver.run(time_discretization=mkq(op[1]), simulation_time=mkq(op[2]), motor_control=ctl, stop_condition=stop_cache[skey])
                     finally:
                         harvest()
